@@ -85,12 +85,19 @@ def parseField (s : String) : Option (CExpr Float) :=
 /-- a number as rsass prints it at precision 10, expanded style -/
 def showNum (x : Float) : String := Num.fmtNumber Num.fmtSpec false 10 x
 
+/-- a number with unit as `css::Value::Numeric` prints it: non-finite values are wrapped,
+`calc(infinity * 1%)`, `calc(NaN)` (css/valueformat.rs, value/numeric.rs `Display`) -/
+def showUnit (x : Float) (u : String) : String :=
+  if x.isNaN || x.isInf then
+    "calc(" ++ showNum x ++ (if u == "" then "" else " * 1" ++ u) ++ ")"
+  else showNum x ++ u
+
 /-- `red|green|blue|hue|saturation|lightness|whiteness|blackness|alpha` as the channel functions print them -/
 def chanReport (q : CQuirks) (c : Col Float) : String :=
   "|".intercalate
-    [showNum (c.red q), showNum (c.green q), showNum (c.blue q), showNum (c.hue q) ++ "deg",
-     showNum (c.saturation q) ++ "%", showNum (c.lightness q) ++ "%",
-     showNum (c.whiteness q) ++ "%", showNum (c.blackness q) ++ "%", showNum c.alpha]
+    [showUnit (c.red q) "", showUnit (c.green q) "", showUnit (c.blue q) "", showUnit (c.hue q) "deg",
+     showUnit (c.saturation q) "%", showUnit (c.lightness q) "%",
+     showUnit (c.whiteness q) "%", showUnit (c.blackness q) "%", showUnit c.alpha ""]
 
 def quirksOf (flags : List String) : CQuirks :=
   { maxTieRedGreen := flags.contains "maxTieRedGreen",
